@@ -14,6 +14,7 @@
 (*               types/blob/reader.go:NewReader (size from Content-Length  *)
 (*               when the descriptor has none; LimitRead only when size>0) *)
 (*   OpenFailed  scheme/reg/blob.go:BlobGet: fall back to descriptor.URLs   *)
+(*   Failed      BlobGet (status other than 200) / Seek return their error  *)
 (*   ServeOK     environment: one 2xx reply of the registry, then          *)
 (*               internal/reghttp/http.go:Resp.next lines 481-505          *)
 (*               (Content-Length check only at offset 0, Content-Range     *)
@@ -352,9 +353,16 @@ Fail ==
     [] why = "open" ->
          /\ pc' = "openfailed"
          /\ UNCHANGED <<rvars, got, cst, ret, rdone, pend>>
-    [] OTHER ->
-         /\ pc' = "stopped" /\ cst' = "error" /\ ret' = R(why, 0, "error")
-         /\ UNCHANGED <<rvars, got, rdone, pend>>
+    [] OTHER ->   \* Seek returns the error (the caller stops: Failed)
+         /\ pc' = "failing"
+         /\ UNCHANGED <<rvars, got, cst, ret, rdone, pend>>
+
+\* the call in progress (BlobGet refused a 2xx status other than 200, Seek could not restart the
+\* request) returns its error and the caller stops
+Failed ==
+  /\ pc = "failing"
+  /\ pc' = "stopped" /\ cst' = "error" /\ ret' = R(why, 0, "error")
+  /\ UNCHANGED <<scn, why, pend, src, tvars, rvars, got, seeks, again, extused>>
 
 \* scheme/reg/blob.go:66-87: reghttp.Do failed; a descriptor with URLs is tried once more at the
 \* external URL (a new Resp: retryCount, readCur, readMax start over; the host's back-off stays)
@@ -373,10 +381,9 @@ Succeed(body, end, clv, st) ==
   /\ conn' = [data |-> body, end |-> end]
   /\ rdone' = FALSE
   /\ pend' = NoPend
-  /\ pc' = IF why = "open" /\ st = "alt" THEN "stopped" ELSE "ready"
+  /\ pc' = IF why = "open" /\ st = "alt" THEN "failing" ELSE "ready"
   /\ CASE why = "open" /\ st = "alt" ->   \* scheme/reg/blob.go:92: a 2xx other than 200 is refused
-            /\ cst' = "error" /\ ret' = R("open", 0, "error")
-            /\ UNCHANGED <<rvars, got>>
+            UNCHANGED <<rvars, got, cst, ret>>
        [] why = "open" ->
             /\ SetupReader(IF scn.size = 0 THEN Max(clv, 0) ELSE scn.size)   \* reader.go:53
             /\ ret' = R("open", 0, "none")
@@ -448,14 +455,14 @@ ServeOK(r) ==
 ReadAny == \E k \in KS : Read(k)
 ServeErrAny == \E kind \in {"neterr", "http500", "http404"} : ServeErr(kind)
 ServeOKAny == \E r \in Replies : ServeOK(r)
-Next == Open \/ OpenFailed \/ ReadAny \/ Seek0 \/ Tell \/ SeekBad \/ Stop \/ GiveUp \/ ServeErrAny \/ ServeOKAny
+Next == Open \/ OpenFailed \/ Failed \/ ReadAny \/ Seek0 \/ Tell \/ SeekBad \/ Stop \/ GiveUp \/ ServeErrAny \/ ServeOKAny
 
 Done == pc = "stopped"
 Spec == Init /\ [][Next]_vars
 
 \* ------------------------------------------------------------------ design invariants
 TypeOK ==
-  /\ pc \in {"closed", "req", "openfailed", "ready", "stopped"}
+  /\ pc \in {"closed", "req", "openfailed", "failing", "ready", "stopped"}
   /\ cst \in {"reading", "clean", "error"}
   /\ lim = NoLim \/ lim >= -1
   /\ readCur >= 0 /\ rbytes >= 0
